@@ -127,6 +127,11 @@ def run_config(ctx, case, npts=None):
     ctx.presentations(f"{name}.backward",
                       lambda y_: np.asarray(call(t.backward, y_), dtype=float), [y], xb,
                       case, prng, n=1, rtol=1e-9, atol=1e-10 * (ax + shift))
+    if int(case.get("seed", 0)) % 3 == 0:
+        ctx.shapes(f"{name}.forward", lambda x_: call(t.forward, x_), x, y, case,
+                   rtol=1e-9, atol=1e-10 * (ay + shift))
+        ctx.shapes(f"{name}.backward", lambda y_: call(t.backward, y_), y, xb, case,
+                   rtol=1e-9, atol=1e-10 * (ax + shift))
     if int(case.get("seed", 0)) % 4 == 0:
         ctx.reuse(f"{name}.forward", lambda x_: call(t.forward, x_), [x], y, case,
                   rtol=1e-12, atol=1e-12 * (ay + shift))
